@@ -8,13 +8,16 @@ git diff -- yarl > /tmp/seed_$ID.diff
 [ -s /tmp/seed_$ID.diff ] || { echo "no change in worktree"; exit 2; }
 SUITE=$(PYTHONPATH=$WT /venv/bin/python -m pytest -q -p no:cacheprovider -n 8 2>&1 | tail -1)
 PYTHONPATH=$WT /venv/bin/python $WT/_seed/demo.py > /tmp/seed_$ID.with.out 2>&1; RC_WITH=$?
-git stash -q -- yarl
+git apply -R /tmp/seed_$ID.diff
 # rebuild extension if the pyx was part of the change
 if grep -q "_quoting_c.pyx" /tmp/seed_$ID.diff; then
   (cd yarl && /venv/bin/python -m cython -3 -o _quoting_c.c _quoting_c.pyx && gcc -shared -fPIC -O2 -I$(/venv/bin/python -c "import sysconfig;print(sysconfig.get_paths()['include'])") _quoting_c.c -o _quoting_c.cpython-312-x86_64-linux-gnu.so) >/dev/null 2>&1
 fi
 PYTHONPATH=$WT /venv/bin/python $WT/_seed/demo.py > /tmp/seed_$ID.without.out 2>&1; RC_WITHOUT=$?
-git stash pop -q
+git apply /tmp/seed_$ID.diff
+if grep -q "_quoting_c.pyx" /tmp/seed_$ID.diff; then
+  (cd yarl && /venv/bin/python -m cython -3 -o _quoting_c.c _quoting_c.pyx && gcc -shared -fPIC -O2 -I$(/venv/bin/python -c "import sysconfig;print(sysconfig.get_paths()['include'])") _quoting_c.c -o _quoting_c.cpython-312-x86_64-linux-gnu.so) >/dev/null 2>&1
+fi
 echo "suite: $SUITE | demo with change rc=$RC_WITH | without rc=$RC_WITHOUT"
 case "$SUITE" in *"1467 passed"*) ;; *) echo "SUITE NOT PASSING"; exit 1;; esac
 [ "$RC_WITH" != "0" ] && [ "$RC_WITHOUT" = "0" ] || { echo "DEMO NOT DISCRIMINATING"; exit 1; }
